@@ -29,7 +29,7 @@ func init() {
 		ID:       "C07",
 		Patterns: codecPatterns(),
 		Explanation: "Linear non-negative bounds analysis (no solver) over the SSA of every xprotocol decoder and matcher: lengths, wire length fields (keyed by buffer, offset, width so the same field read in caller and callee is one atom) and IoBuffer.Len()/len(Bytes()) are atoms; facts come from dominating guard edges; obligations a callee cannot discharge are lifted to its call sites. " +
-			"(B1) every index/slice/binary.UintN on bytes is within len (not cap) of what has arrived; (B2) Drain(n) only with n <= Len proven, n equals the length of the frame slice taken from offset 0, no Drain may precede a (nil,nil) return, and every need-more-data edge has the form Len < X with X <= n (tight: a complete frame is never held back) or X a constant <= the codec's minimal frame; (B3) matchers return MatchAgain exactly below a constant width <= the minimal frame and never decide on fewer bytes than they read; (B2d) Dispatch loops until empty/(nil,nil)/error and hands each decoded frame to handleFrame exactly once. (B2h) MFramer (HTTP/2): accesses in readFrameHeader/ReadFrame/ReadPreface are bounded (offsets non-negative by induction over call sites); a loop that re-reads frames at an offset advances it or drains; ReadFrame drains once, last, by the size it reports, after the header block was assembled; the connection HPACK decoder is written only when no further ReadFrame can follow. (B3s) SelectStreamFactoryProtocol returns a protocol only on the nil answer of its matcher, keeps need-more-data sticky across candidates and answers FAILED only when nobody asked for more; proxy.OnData waits on EAGAIN without consuming. (B2r) every content-discarding call on connection.readBuffer in pkg/network is guarded by readBuffer.Len()==0, directly or at every caller.",
+			"(B1) every index/slice/binary.UintN on bytes is within len (not cap) of what has arrived; (B2) Drain(n) only with n <= Len proven, n equals the length of the frame slice taken from offset 0, no Drain may precede a (nil,nil) return, and every need-more-data edge has the form Len < X with X <= n (tight: a complete frame is never held back) or X a constant <= the codec's minimal frame; (B3) matchers return MatchAgain exactly below a constant width <= the minimal frame and never decide on fewer bytes than they read; (B2d) Dispatch loops until empty/(nil,nil)/error and hands each decoded frame to handleFrame exactly once. (B2h) MFramer (HTTP/2): accesses in readFrameHeader/ReadFrame/ReadPreface are bounded (offsets non-negative by induction over call sites); a loop that re-reads frames at an offset advances it or drains; ReadFrame drains once, last, by the size it reports, after the header block was assembled; the connection HPACK decoder is written only when no further ReadFrame can follow. (B3s) SelectStreamFactoryProtocol returns a protocol only on the nil answer of its matcher, keeps need-more-data sticky across candidates and answers FAILED only when nobody asked for more; proxy.OnData waits on EAGAIN without consuming. (B2r) every content-discarding call on connection.readBuffer in pkg/network is guarded by readBuffer.Len()==0, directly or at every caller. (B2t) in tarsProtocol.Decode every call receiving the buffer or its bytes (other than TarsRequest) and every error exit lies under status == PACKAGE_FULL (an error under PACKAGE_ERROR is accepted).",
 		Run: runC07,
 	})
 }
@@ -333,6 +333,7 @@ func runC07(c *Ctx) {
 	c.Rule("C07.B3", "matchers answer MatchAgain exactly below their (constant) width and never decide on fewer bytes than they read", 10)
 	c.Rule("C07.B3h", "the HTTP/1 detector gives a negative verdict only after it has seen as many bytes as it may read", 2)
 	c.Rule("C07.B3s", "protocol auto-detection: success only on a matcher's nil answer, need-more-data sticky, FAILED only when nobody asked for more, proxy waits without consuming", 4)
+	c.Rule("C07.B2t", "the tars decoder parses a package and reports errors only once the framing test answered PACKAGE_FULL", 3)
 	c.Rule("C07.B2r", "the network layer recycles the read buffer only when it is empty (unconsumed bytes are never discarded)", 2)
 	c.Rule("C07.B2h", "HTTP/2 frame reader: re-read loops advance, drain once and last by the reported size, HPACK fed only after the block arrived", 5)
 	c.Rule("C07.B2d", "Dispatch: loop exits only on empty/(nil,nil)/error; a frame goes to handleFrame exactly once", 5)
@@ -353,13 +354,14 @@ func runC07(c *Ctx) {
 	scope := decodeScope(c, append(append([]*ssa.Function{}, decodes...), matchers...))
 	br := newBoundsRun(c, scope)
 	br.runB1("C07.B1")
-	br.runB2(decodes)
+	br.runB2(decodes, "C07.B2")
 	br.runB3(matchers)
 	runC07Dispatch(c)
 	runC07HTTPMatcher(c)
 	runC07H2(c, "C07.B1", "C07.B2h")
 	runC07Detection(c)
 	runC07ReadBuffer(c)
+	runC07Tars(c, "C07.B2t")
 }
 
 // ---------------------------------------------------------------------------------------------
@@ -438,7 +440,7 @@ func (br *boundsRun) onWireMemory(fn *ssa.Function, in ssa.Instruction) bool {
 	return ok
 }
 
-func (br *boundsRun) runB2(decodes []*ssa.Function) {
+func (br *boundsRun) runB2(decodes []*ssa.Function, rule string) {
 	c := br.c
 	ord := ordCounter{}
 	var fns []*ssa.Function
@@ -459,9 +461,9 @@ func (br *boundsRun) runB2(decodes []*ssa.Function) {
 			buflen := ba.atom("buflen("+ba.root(cc.Value)+","+ba.epoch(cc.Value, d.call)+")", true)
 			ok, why := br.discharge(fn, buflen.add(d.n, -1), d.call.Block(), 0)
 			if !ok {
-				c.Fail("C07.B2", key+":within-len", d.call.Pos(), "Drain("+d.n.String()+") is not proven <= Len(): "+why+". IoBuffer.Drain is a silent no-op when n > Len, so the same bytes would be decoded again without end")
+				c.Fail(rule, key+":within-len", d.call.Pos(), "Drain("+d.n.String()+") is not proven <= Len(): "+why+". IoBuffer.Drain is a silent no-op when n > Len, so the same bytes would be decoded again without end")
 			} else {
-				c.Pass("C07.B2", key+":within-len", d.call.Pos(), "Drain amount <= Len: "+why)
+				c.Pass(rule, key+":within-len", d.call.Pos(), "Drain amount <= Len: "+why)
 			}
 			// (b) n equals the length of a frame slice taken from offset 0 of the same buffer
 			matched := ""
@@ -479,22 +481,22 @@ func (br *boundsRun) runB2(decodes []*ssa.Function) {
 				}
 			})
 			if matched != "" {
-				c.Pass("C07.B2", key+":equals-frame", d.call.Pos(), "drains exactly the length of the frame slice taken at "+matched)
+				c.Pass(rule, key+":equals-frame", d.call.Pos(), "drains exactly the length of the frame slice taken at "+matched)
 			} else {
-				c.Fail("C07.B2", key+":equals-frame", d.call.Pos(), "Drain amount "+d.n.String()+" is not the length of the frame slice (bytes[:n]) this decoder keeps: bytes would be lost or attributed to the neighbouring frame")
+				c.Fail(rule, key+":equals-frame", d.call.Pos(), "Drain amount "+d.n.String()+" is not the length of the frame slice (bytes[:n]) this decoder keeps: bytes would be lost or attributed to the neighbouring frame")
 			}
 			// (d) no (nil,nil) return after a Drain
 			if bad := existsPath(fn, d.call, isNilNilReturn, nil); bad != nil {
-				c.Fail("C07.B2", key+":no-needmore-after-drain", d.call.Pos(), "a (nil,nil) need-more-data return at "+c.pos(nearestPos(bad))+" is reachable after this Drain: an incomplete frame would consume bytes")
+				c.Fail(rule, key+":no-needmore-after-drain", d.call.Pos(), "a (nil,nil) need-more-data return at "+c.pos(nearestPos(bad))+" is reachable after this Drain: an incomplete frame would consume bytes")
 			} else {
-				c.Pass("C07.B2", key+":no-needmore-after-drain", d.call.Pos(), "no need-more-data return reachable after the Drain")
+				c.Pass(rule, key+":no-needmore-after-drain", d.call.Pos(), "no need-more-data return reachable after the Drain")
 			}
 		}
 		// at most one Drain per path
 		for i, d1 := range ds {
 			for j, d2 := range ds {
 				if i != j && br.ba(fn).mayPrecede(d1.call, d2.call) {
-					c.Fail("C07.B2", funcKey(fn)+":double-drain", d2.call.Pos(), "two Drain calls on one path")
+					c.Fail(rule, funcKey(fn)+":double-drain", d2.call.Pos(), "two Drain calls on one path")
 				}
 			}
 		}
@@ -528,7 +530,7 @@ func (br *boundsRun) runB2(decodes []*ssa.Function) {
 				if bo, ok := e.Cond.(*ssa.BinOp); ok {
 					if ex, ok := bo.X.(*ssa.Extract); ok {
 						if call, ok := ex.Tuple.(*ssa.Call); ok && strings.HasSuffix(calleeName(call.Common()), "tars/protocol.TarsRequest") {
-							c.Pass("C07.B2", key, nearestPos(e.If), "need-more-data decided by TarsRequest's package status (library contract)")
+							c.Pass(rule, key, nearestPos(e.If), "need-more-data decided by TarsRequest's package status (library contract)")
 							continue
 						}
 					}
@@ -544,7 +546,7 @@ func (br *boundsRun) runB2(decodes []*ssa.Function) {
 					}
 				}
 				if X == nil {
-					c.Fail("C07.B2", key, nearestPos(e.If), "a need-more-data return (nil,nil) is not governed by a `Len() < X` guard")
+					c.Fail(rule, key, nearestPos(e.If), "a need-more-data return (nil,nil) is not governed by a `Len() < X` guard")
 					continue
 				}
 				// drains reachable from the continuing side: in this function or in callees
@@ -573,12 +575,12 @@ func (br *boundsRun) runB2(decodes []*ssa.Function) {
 					}
 				})
 				if len(ns) == 0 {
-					c.Fail("C07.B2", key, nearestPos(e.If), "need-more-data guard `Len < "+X.String()+"` but no Drain amount is reachable to compare it with")
+					c.Fail(rule, key, nearestPos(e.If), "need-more-data guard `Len < "+X.String()+"` but no Drain amount is reachable to compare it with")
 					continue
 				}
 				tight := true
 				if X.isConst() && X.C <= minFrame[codecName(fn)] {
-					c.Pass("C07.B2", key, nearestPos(e.If), fmt.Sprintf("need more data while Len < %d (constant <= minimal well-formed %s frame %d)", X.C, codecName(fn), minFrame[codecName(fn)]))
+					c.Pass(rule, key, nearestPos(e.If), fmt.Sprintf("need more data while Len < %d (constant <= minimal well-formed %s frame %d)", X.C, codecName(fn), minFrame[codecName(fn)]))
 					continue
 				}
 				for _, n := range ns {
@@ -587,9 +589,9 @@ func (br *boundsRun) runB2(decodes []*ssa.Function) {
 					}
 				}
 				if tight {
-					c.Pass("C07.B2", key, nearestPos(e.If), "guard Len < X with X <= frame length drained by "+strings.Join(where, ","))
+					c.Pass(rule, key, nearestPos(e.If), "guard Len < X with X <= frame length drained by "+strings.Join(where, ","))
 				} else {
-					c.Fail("C07.B2", key, nearestPos(e.If), "need-more-data guard `Len < "+X.String()+"` is stronger than the frame length the decoder consumes: a complete frame that is the last thing in the buffer is held back, so the outcome depends on segmentation")
+					c.Fail(rule, key, nearestPos(e.If), "need-more-data guard `Len < "+X.String()+"` is stronger than the frame length the decoder consumes: a complete frame that is the last thing in the buffer is held back, so the outcome depends on segmentation")
 				}
 			}
 		}
@@ -602,7 +604,7 @@ func (br *boundsRun) runB2(decodes []*ssa.Function) {
 				n += len(allDrains[f])
 			}
 		}
-		c.Check("C07.B2", funcKey(fn)+":has-drain", fn.Pos(), n > 0, fmt.Sprintf("%d Drain site(s) in the codec", n), "decoder never drains the consumed frame")
+		c.Check(rule, funcKey(fn)+":has-drain", fn.Pos(), n > 0, fmt.Sprintf("%d Drain site(s) in the codec", n), "decoder never drains the consumed frame")
 	}
 }
 
